@@ -83,6 +83,7 @@ def _fragment_ok(frag):
             i += 5
         elif frag.startswith("<span", i):
             j = i + 5
+            names = []
             while True:
                 if j >= n:
                     return "unterminated start tag", attrs
@@ -100,6 +101,9 @@ def _fragment_ok(frag):
                 if e < 0:
                     return "unterminated attribute value", attrs
                 name, val = frag[j:k], frag[k + 2:e]
+                if name.strip() in names:
+                    return "attribute specified twice in one start tag", attrs
+                names.append(name.strip())
                 if not _attr_value_ok(val, None):
                     return "attribute value is not well-formed", attrs
                 attrs.append((name, val))
@@ -205,8 +209,13 @@ def _collect(soup):
     return regions, refs, divs, ps
 
 
-def _integrity(w, set_l, lang_l, cap_l, node_l, two, same, forced):
+def _integrity(w, set_l, lang_l, cap_l, node_l, two, same, forced, style_name=None):
     cs = build_set(set_l=set_l, lang_l=lang_l, cap_l=cap_l, node_l=node_l, two_langs=two, same_times=same, italics=3, style=1, set_styles=1)
+    if style_name is not None:   # rename the document style 's1' (stylesheet entry and the captions' class reference)
+        cs.set_styles({style_name: {"color": "red", "font-family": "Arial"}})
+        for lang in cs.get_languages():
+            for c in cs.get_captions(lang):
+                c.style = {"class": style_name}
     holder = []
 
     def run():
@@ -250,6 +259,9 @@ def _integrity(w, set_l, lang_l, cap_l, node_l, two, same, forced):
     for p in ps:
         if "style" in p.attrs and styles.count(p.attrs["style"]) != 1:
             return "style reference does not resolve"
+    for i in styles:
+        if i in regions:
+            return "an xml:id is used by a style and by a region (ids are not unique)"
     return ""
 
 
@@ -284,6 +296,87 @@ def integrity_options(w: int, two: bool, same: bool, forced: bool, cap_l: bool) 
     post: _ == ""
     """
     return _integrity(w, 0, 2, 1 if cap_l else 0, 2, two, same, forced)
+
+
+def inline_positioning(st: int, lay: int, single: bool, cap_too: bool) -> str:
+    """
+    pre: 0 <= st < 4 and 0 <= lay < 3
+    post: _ == ""
+    """
+    # write_inline_positioning=True repeats the region's attributes on the element: a positioned span whose own style
+    # also carries an alignment must still be a well-formed start tag
+    style = {"italics": True} if st == 0 else ({"text-align": "right"} if st == 1 else (
+        {"text-align": "center", "italics": True} if st == 2 else {"color": "red"}))
+    lk = 1 if lay == 0 else (2 if lay == 1 else 7)
+    nodes = [CaptionNode.create_style(True, style, layout_info=layout(lk)), CaptionNode.create_text("x", layout_info=layout(lk)),
+             CaptionNode.create_style(False, style, layout_info=layout(lk))]
+    cs = CaptionSet({"en": CaptionList([Caption(1000000, 2000000, nodes, style=style if cap_too else {}, layout_info=layout(2) if cap_too else None)])})
+    holder = []
+
+    def run():
+        wr = (SinglePositioningDFXPWriter if single else DFXPWriter)(write_inline_positioning=True)
+        orig = dfxp_soup
+
+        def factory(markup, features=None):
+            s = orig()
+            holder.append(s)
+            return s
+        db.BeautifulSoup = dx.BeautifulSoup = factory
+        return wr.write(cs)
+    _with_fake(run)
+    for p in holder[-1].find("body").find_all("p"):
+        err, _ = _fragment_ok(p.string or "")
+        if err:
+            return "p content: " + err
+    return ""
+
+
+def public_inline_positioning(st, lay, single, cap_too):
+    from lxml import etree
+    style = {"italics": True} if st == 0 else ({"text-align": "right"} if st == 1 else (
+        {"text-align": "center", "italics": True} if st == 2 else {"color": "red"}))
+    lk = 1 if lay == 0 else (2 if lay == 1 else 7)
+    nodes = [CaptionNode.create_style(True, style, layout_info=layout(lk)), CaptionNode.create_text("x", layout_info=layout(lk)),
+             CaptionNode.create_style(False, style, layout_info=layout(lk))]
+    cs = CaptionSet({"en": CaptionList([Caption(1000000, 2000000, nodes, style=style if cap_too else {}, layout_info=layout(2) if cap_too else None)])})
+    out = (SinglePositioningDFXPWriter if single else DFXPWriter)(write_inline_positioning=True).write(cs)
+    try:
+        etree.fromstring(out.encode("utf-8"))
+    except etree.XMLSyntaxError as e:
+        return "strict XML parser: " + str(e)[:80]
+    return ""
+
+
+def style_names(k: int, w: int, cap_l: bool) -> str:
+    """
+    pre: 0 <= k < 4 and 0 <= w < 3
+    post: _ == ""
+    """
+    # document style names that look like the writer's own ids ('p', 'default') or nearly like region ids
+    name = "p" if k == 0 else ("default" if k == 1 else ("r" if k == 2 else "bottom0"))
+    return _integrity(w, 0, 2, 1 if cap_l else 0, 2, False, False, False, style_name=name)
+
+
+def style_named_like_region(k: int, w: int) -> str:
+    """
+    pre: 0 <= k < 3 and 0 <= w < 3
+    post: _ == ""
+    """
+    # known finding C07-style-id-equals-region-id: a document style called 'bottom', 'r0' or 'r1'
+    name = "bottom" if k == 0 else ("r0" if k == 1 else "r1")
+    return _integrity(w, 0, 2, 1, 2, False, False, False, style_name=name)
+
+
+def public_style_named_like_region(k, w):
+    import re
+    name = "bottom" if k == 0 else ("r0" if k == 1 else "r1")
+    cs = build_set(set_l=0, lang_l=2, cap_l=1, node_l=2, italics=3, style=1, set_styles=1)
+    cs.set_styles({name: {"color": "red"}})
+    for c in cs.get_captions("en"):
+        c.style = {"class": name}
+    wr = DFXPWriter() if w == 0 else (SinglePositioningDFXPWriter() if w == 1 else LegacyDFXPWriter())
+    ids = re.findall(r'xml:id="([^"]*)"', wr.write(cs))
+    return "" if len(ids) == len(set(ids)) else "duplicate xml:id in the written document: %r" % sorted(i for i in set(ids) if ids.count(i) > 1)
 
 
 # --- public API replay for the attribute-value obligations (real bs4 + strict XML parse) -------------------
